@@ -27,6 +27,9 @@ def run(P, R, L):
     R.clause("PAIR-12", "the two-level iterator's (data block iterator, handle of the loaded block) pair is always written together (a stale handle makes "
              "init_data_block skip loading the block)")
     K.pair12_file_level_pairs(P, R, L, only={"tables::table::TwoLevelIterator"})
+    K.bundle_readpath(P, R, L)
+    K.bundle_retention(P, R, L)
+    K.bundle_liveness(P, R, L)
     R.not_decided += ["which element a data-dependent loop stops on (the equivalence with a sorted-map cursor)",
                       "re-positioning of non-current children on direction change", "tombstone / shadowing logic beyond the sequence filter"]
     R.assumptions += ["the helpers named in the direction table do what their names say (their bodies are value-level)"]
